@@ -61,7 +61,15 @@ Chains == <<
   Ch(<<"simple">>, << <<"asciifold">>, <<"stemmer">> >>, FALSE),                               \* 31
   Ch(<<"whitespace">>, << <<"lower">>, <<"asciifold">>, <<"alphanum">> >>, TRUE),              \* 32
   Ch(<<"simple">>, << <<"asciifold">>, <<"lower">>, <<"stop", << <<97>>, <<101>>, <<105, 97>> >> >>, <<"removelong", 3>> >>, TRUE),  \* 33
-  Ch(<<"regex", WordsOrSymbols>>, << <<"lower">>, <<"stemmer">> >>, FALSE) >>                  \* 34
+  Ch(<<"regex", WordsOrSymbols>>, << <<"lower">>, <<"stemmer">> >>, FALSE),                    \* 34
+  \* the regex tokenizer with patterns that can match the empty string (see Tokens!RegexNullable): the
+  \* character that stops the pattern may be multi-byte
+  Ch(<<"regex", <<92, 119, 42>>, "w">>, <<>>, TRUE),                                           \* 35  \w*
+  Ch(<<"regex", <<91, 97, 45, 122, 93, 42>>, "az">>, <<>>, TRUE),                              \* 36  [a-z]*
+  Ch(<<"regex", <<91, 48, 45, 57, 93, 43, 124>>, "09">>, <<>>, TRUE),                          \* 37  [0-9]+|
+  Ch(<<"regex", <<120, 42>>, "x">>, <<>>, TRUE),                                               \* 38  x*
+  Ch(<<"regex", <<91, 97, 45, 122, 93, 42>>, "az">>, << <<"lower">>, <<"removelong", 3>> >>, TRUE),   \* 39  [a-z]* + filters
+  Ch(<<"regex", <<92, 119, 42>>, "w">>, << <<"lower">>, <<"stemmer">> >>, FALSE) >>            \* 40  \w* + stemmer, offsets only
 SnippetChains == {6, 7, 12, 15, 18, 19, 23, 24, 25, 26, 27, 30, 31, 33}
 
 VARIABLES text, done
